@@ -488,7 +488,15 @@ class HydrodynamicsTemplateModel:
                 2*vm*self.nu*(self.mu-1))
             if not np.isnan(vpSignChangeWp):
                 if vpMin < vpSignChangeWp < vpMax:
-                    vpMax = vpSignChangeWp-1e-10
+                    # Keep the side of the sign change on which wp is positive
+                    alMax = (
+                        (vpMax / vm - 1.0) * (vpMax * vm / self.cb2 - 1.0)
+                        / (1 - vpMax**2) / 3.0
+                    )
+                    if self.wFromAlpha(alMax) > 0:
+                        vpMin = vpSignChangeWp+1e-10
+                    else:
+                        vpMax = vpSignChangeWp-1e-10
 
         try:
             sol = root_scalar(
